@@ -38,6 +38,7 @@ class Grammar:
         self.note = note
         self.tvtype = 'V'     # value kind returned by typed-term functors
         self.lexspec = None   # custom lexer script: ([term per byte], [length per byte]) or None
+        self.ttstate = False  # typed-term functors share one C++ type and differ only in their stored state
     # term indices: 0..T-1 user terms, T eof, T+1 error token
     @property
     def T(self): return len(self.terms)
@@ -67,17 +68,19 @@ class Grammar:
         return '; '.join(out)
     def to_json(self):
         return {'nts': self.nts, 'terms': [t.to_json() for t in self.terms], 'rules': [r.to_json() for r in self.rules],
-                'root': self.root, 'vtypes': self.vtypes, 'note': self.note, 'tvtype': self.tvtype, 'lexspec': self.lexspec}
+                'root': self.root, 'vtypes': self.vtypes, 'note': self.note, 'tvtype': self.tvtype, 'lexspec': self.lexspec, 'ttstate': self.ttstate}
     @staticmethod
     def from_json(d):
         g = Grammar(d['nts'], [Term.from_json(t) for t in d['terms']], [Rule.from_json(r) for r in d['rules']],
                     d.get('root', 0), d.get('vtypes'), d.get('note', ''))
         g.tvtype = d.get('tvtype', 'V')
         g.lexspec = d.get('lexspec')
+        g.ttstate = d.get('ttstate', False)
         return g
     def key(self):
         d = self.to_json(); d.pop('note', None)
         if d.get('lexspec') is None: d.pop('lexspec', None)
+        if not d.get('ttstate'): d.pop('ttstate', None)
         return hashlib.sha256(json.dumps(d, sort_keys=True).encode()).hexdigest()[:16]
 
 def simple(spec, root=None, **kw):
